@@ -70,6 +70,9 @@ I_C17_Rejected     == Judge("C17_Rejected",
                            IF TheCall.op = "bad" THEN BadClass(TheCall.val) ELSE {}))
 I_C17_ReadOnly     == J("C17_ReadOnly", C17_ReadOnly)
 
+I_C18_Bystander    == J("C18_Bystander", C18_Bystander)
+I_C18_Contained    == J("C18_Contained", C18_Contained)
+
 \* conformance with the contract (drift, never an alarm by itself)
 Conforms ==
   /\ WellFormed(Pre)
